@@ -39,6 +39,22 @@ CHECKS = {
         'Bounds: trees of depth 1 (quick) / 2 (thorough); formulas of <= 4 (quick) / <= 6 (thorough) tokens, so nesting <= 2: the depth 5 of the '
         'property statement is not reached.',
    technique=TECH),
+ 'C04': dict(
+   level='model_checking', design_ref='DESIGN.md §5 C04', engine='kani+mirsym',
+   text='(kani/mode, Engine A) Kani/CBMC over the compiled mode.rs for ALL u32 modes: the seven file-type predicates decode S_IFMT (exactly one true, matching the first '
+        'character of the mode string), the permission / suid / sgid predicates decode their bits and agree with the ten-character mode string, which is ls -l notation. '
+        '(wiring, Engine B) the real Searcher::get_field_value arm of every metadata column — through FileMetadataState::update_file_metadata, util::get_metadata, '
+        'check_file_mode, mode::* and Variant::from_* — over a symbolic lstat record and symbolic zip-member modes: size, uid, gid, hardlinks, inode, blocks, device, the 7 '
+        'type and 14 permission booleans, mode, line_count, is_shebang and the four digest columns are the attribute they are named after. (shebang, line_count, digests) '
+        'util::is_shebang over two symbolic bytes, util::get_line_count over <= 3 chunks with symbolic lengths / newline counts / read failures, get_sha*_file_hash with '
+        'the RustCrypto hasher identified from its monomorphised type: hex(alg(whole file)), empty on failure. (extclass) is_archive..is_video with per-class one-entry '
+        'lists in the default and user configuration, the user list symbolically present: lower-cased name ends with an extension of the active list, also for zip members. '
+        '(hidden_empty) is_hidden / is_empty for entries and zip members over a name table.',
+   note=TRUST + 'Also trusted for kani/mode: Kani 0.68 / CBMC 6.11. Assumed: Metadata is a symbolic lstat record whose accessors return its fields; bytecount::count, '
+        'io::copy and the digest crates by contract (the digest value itself is uninterpreted: the claim is which algorithm absorbs which bytes and how it is rendered); '
+        'names from finite tables (stated in the evidence). Outside: owner-name lookup, xattrs and capabilities (syscalls / FFI), modification-time formatting, '
+        'name/path/dir/abspath/absdir (thin wrappers over std::path), CONTAINS, MIME / EXIF / media readers; a reader rewritten onto another std::io API is reported inconclusive.',
+   technique='Kani/CBMC bounded model checking of the compiled code (all 2^32 modes) + symbolic execution of rustc MIR + z3'),
  'C05': dict(
    level='model_checking', design_ref='DESIGN.md §5 C05',
    text='<Criteria<String> as Ord>::cmp, cmp_at, cmp_at_numbers / cmp_at_datetimes / cmp_at_direct, Expr::contains_numeric / contains_datetime, '
@@ -208,6 +224,7 @@ m = {
            'baseline_off_cmd': 'cd /repo && cargo test --workspace --no-fail-fast --offline', 'source_commits': [], 'add_only': True},
  'engines': [
    {'name': 'mirsym', 'path': 'lib/mirsym', 'serves_properties': sorted(CHECKS), 'kind_free_text': 'symbolic executor for rustc MIR (-Zunpretty=mir of the current tree) with contract models, z3 as the deciding step'},
+   {'name': 'kani', 'path': 'lib/kani_engine.py', 'serves_properties': ['C04'], 'kind_free_text': 'Kani proof harnesses (kani/*.rs) appended to a scratch copy of the current tree; CBMC decides; counterexamples via concrete playback'},
    {'name': 'relang', 'path': 'lib/relang.py', 'serves_properties': ['C12', 'C20'], 'kind_free_text': 'regex text emitted by the real translators (native driver over the tree sources) -> z3 regular-language equivalence over unbounded subjects'},
  ],
  'checks': [],
